@@ -108,16 +108,18 @@ def checkVar (es : List Entry) (v : Var) : List String :=
        [s!"{tag}{slotText} field {w}@{o} reported " ++ ",".intercalate (here.map (fun e => s!"{e.offset}:{e.typ}"))])
   | _ => []
 
-def handleIdiom (payload impl : String) : String × String :=
+def handleIdiom (tbl : Array (Nat × Nat)) (payload impl : String) : String × String :=
   match payload.splitOn " " with
-  | [spec, _] =>
+  | [spec, hex] =>
     let segs :=
       if impl.startsWith "PANIC" then ["C01-panic:" ++ impl]
       else match parseSpec spec, parseLayout impl with
         | some vars, some es => (vars.flatMap (checkVar es)).take 3 ++ oracleC12 es
         | _, none => ["C04-no-layout:" ++ (impl.take 120).toString]
         | none, _ => ["bad-request"]
-    ("n/a", verdictOf segs)
+    let implCore := ((impl.splitOn " polls=").headD impl)
+    let model := pipelineModel tbl ("sorted 30000000,10,50,250,394,0 " ++ hex) implCore
+    (model ++ ((impl.splitOn implCore).getD 1 ""), verdictOf segs)
   | _ => ("bad-request", "ok")
 
 def insertEntry (e : Entry) : List Entry → List Entry
